@@ -225,16 +225,28 @@ decreasing_by simp only [List.length_cons, List.length_drop]; omega
 
 /-! ### marshal -/
 
+/-- 2^23: bound of the 24-bit signed cumulative loss (`1 << 23` in `build_report_block`) -/
+def lossLim : Int := 2 ^ c15LossClampBits
+
 /-- `build_report_block`: loss count clamped to 24-bit signed and stored two's complement -/
 def blockBytes (b : ReportBlock) : Bytes :=
-  let clamped : Int := if b.lost < -8388608 then -8388608 else if b.lost > 8388607 then 8388607 else b.lost
+  let clamped : Int := if b.lost < -lossLim then -lossLim else if b.lost > lossLim - 1 then lossLim - 1 else b.lost
   be32 b.ssrc ++ [b.fractionLost] ++ be24n (clamped % 16777216).toNat ++
     be32 b.hseq ++ be32 b.jitter ++ be32 b.lsr ++ be32 b.dlsr
 
 def itemBytes (i : SdesItem) : Bytes := i.ty :: u8 (i.text.length % 256) :: i.text
 
-/-- `item.text.len() > u8::MAX` somewhere in the packet (the marshal error added by the range fix) -/
-def sdesTextTooLong (cs : List SdesChunk) : Bool := cs.any fun c => c.items.any fun i => i.text.length > 255
+/-- the per-item checks of `build_sdes_body`, in build order: type 0 (END) first, then the length -/
+def itemsErr : List SdesItem → Option String
+  | [] => none
+  | i :: is =>
+    if i.ty = 0 then some "SDES item type 0 is the END marker"
+    else if i.text.length > 255 then some "SDES item text too long"      -- u8::MAX
+    else itemsErr is
+
+def sdesItemErr : List SdesChunk → Option String
+  | [] => none
+  | c :: cs => match itemsErr c.items with | some e => some e | none => sdesItemErr cs
 
 /-- `build_sdes_body` appends chunk after chunk to ONE buffer and pads on the buffer length -/
 def sdesBody (acc : Bytes) : List SdesChunk → Bytes
@@ -243,12 +255,21 @@ def sdesBody (acc : Bytes) : List SdesChunk → Bytes
     let a := acc ++ be32 c.ssrc ++ c.items.flatMap itemBytes ++ [0]
     sdesBody (a ++ List.replicate (pad4 a.length) 0) cs
 
+/-- `str::is_char_boundary(i)` for `0 < i ≤ len`: the end, or a byte that is not a continuation byte -/
+def isBoundary (r : Bytes) (i : Nat) : Bool :=
+  i = 0 || i ≥ r.length || (let b := (r.getD i 0).toNat; b < 128 || b ≥ 192)
+
+/-- `while !reason.is_char_boundary(len) { len -= 1 }` -/
+def byeCut (r : Bytes) : Nat → Nat
+  | 0 => 0
+  | n + 1 => if isBoundary r (n + 1) then n + 1 else byeCut r n
+
 def byeBody (sources : List UInt32) (reason : Option Bytes) : Bytes :=
   be32s sources ++
     match reason with
     | none => []
     | some r =>
-      let n := min r.length c15ByeMaxReason
+      let n := byeCut r (min r.length c15ByeMaxReason)
       u8 n :: r.take n
 
 def firBody (sender : UInt32) (reqs : List FirReq) : Bytes :=
@@ -265,7 +286,7 @@ def rembBody (sender : UInt32) (bitrate : Nat) (ssrcs : List UInt32) : Bytes :=
   let me := rembNorm 64 bitrate 0
   let m := me.1 % 4294967296                     -- `mantissa as u32`
   be32 sender ++ be32 0 ++ rembTag ++
-    [u8 (ssrcs.length % 256), u8 ((me.2 % 64) * 4 % 256 + m / 65536 % 4), u8 (m / 256 % 256), u8 (m % 256)] ++
+    [u8 (ssrcs.length % 256), u8 ((me.2 % (c15RembExpMask + 1)) * 4 % 256 + m / 65536 % 4), u8 (m / 256 % 256), u8 (m % 256)] ++
     be32s ssrcs
 
 def twccBody (sender media : UInt32) (baseSeq statusCount : UInt16) (refTime : UInt32)
@@ -273,46 +294,62 @@ def twccBody (sender media : UInt32) (baseSeq statusCount : UInt16) (refTime : U
   be32 sender ++ be32 media ++ be16 baseSeq ++ be16 statusCount ++
     be24n (refTime.toNat % 16777216) ++ [fbCount] ++ payload
 
-/-- `write_rtcp_packet` -/
+/-- the bytes `write_rtcp_packet` appends (when the length fits) -/
 def writeRtcp (fmt pt : Nat) (body : Bytes) : Bytes :=
   let b := body ++ List.replicate (pad4 body.length) 0
-  u8 (c15RtpVersion * 64 + fmt % 32) :: u8 pt :: (be16n ((b.length + 4) / 4 - 1) ++ b)
+  u8 (c15RtpVersion * 64 + fmt % (c15RtcpCountMask + 1)) :: u8 pt :: (be16n (b.length / 4) ++ b)
+
+/-- `u16::try_from(body.len() / 4)` on the padded body succeeds -/
+def fits (body : Bytes) : Bool := (body.length + pad4 body.length) / 4 ≤ 65535
+
+/-- `write_rtcp_packet` -/
+def emit (fmt pt : Nat) (body : Bytes) : Except Err Bytes :=
+  if fits body then .ok (writeRtcp fmt pt body) else .error (.rtcp "RTCP packet too long for the length field")
 
 /-- the TWCC arm: a body that is not 32-bit aligned gets RFC 3550 padding (zero bytes, the count in
 the last byte) and the P bit is set on the first header byte afterwards (`out[start] |= 0x20`) -/
-def twccWire (body : Bytes) : Bytes :=
+def twccPadded (body : Bytes) : Bytes :=
   let pad := pad4 body.length
-  if pad = 0 then writeRtcp c15FmtTwcc c15RtcpRtpfb body
+  if pad = 0 then body else body ++ List.replicate (pad - 1) 0 ++ [u8 pad]
+
+def twccWire (body : Bytes) : Bytes :=
+  if pad4 body.length = 0 then writeRtcp c15FmtTwcc c15RtcpRtpfb body
   else
-    match writeRtcp c15FmtTwcc c15RtcpRtpfb (body ++ List.replicate (pad - 1) 0 ++ [u8 pad]) with
+    match writeRtcp c15FmtTwcc c15RtcpRtpfb (twccPadded body) with
     | b0 :: rest => (b0 ||| 0x20) :: rest
     | [] => []
+
+def twccEmit (body : Bytes) : Except Err Bytes :=
+  if fits (twccPadded body) then .ok (twccWire body) else .error (.rtcp "RTCP packet too long for the length field")
 
 /-- one arm of `marshal_rtcp_packets` -/
 def marshalOne : Rtcp → Except Err Bytes
   | .sr s m l t p o bl =>
     if bl.length > c15RtcpMaxCount then .error (.rtcp "too many report blocks")
-    else .ok (writeRtcp (bl.length % 256) c15RtcpSr
-      (be32 s ++ be32 m ++ be32 l ++ be32 t ++ be32 p ++ be32 o ++ bl.flatMap blockBytes))
+    else emit (bl.length % 256) c15RtcpSr
+      (be32 s ++ be32 m ++ be32 l ++ be32 t ++ be32 p ++ be32 o ++ bl.flatMap blockBytes)
   | .rr s bl =>
     if bl.length > c15RtcpMaxCount then .error (.rtcp "too many report blocks")
-    else .ok (writeRtcp (bl.length % 256) c15RtcpRr (be32 s ++ bl.flatMap blockBytes))
+    else emit (bl.length % 256) c15RtcpRr (be32 s ++ bl.flatMap blockBytes)
   | .sdes cs =>
     if cs.length > c15RtcpMaxCount then .error (.rtcp "too many SDES chunks")
-    else if sdesTextTooLong cs then .error (.rtcp "SDES item text too long")
-    else .ok (writeRtcp (cs.length % 256) c15RtcpSdes (sdesBody [] cs))
+    else match sdesItemErr cs with
+      | some e => .error (.rtcp e)
+      | none => emit (cs.length % 256) c15RtcpSdes (sdesBody [] cs)
   | .bye ss r =>
     if ss.length > c15RtcpMaxCount then .error (.rtcp "too many BYE sources")
-    else .ok (writeRtcp (ss.length % 256) c15RtcpBye (byeBody ss r))
-  | .pli s m => .ok (writeRtcp c15FmtPli c15RtcpPsfb (be32 s ++ be32 m))
-  | .fir s rq => .ok (writeRtcp c15FmtFir c15RtcpPsfb (firBody s rq))
+    else emit (ss.length % 256) c15RtcpBye (byeBody ss r)
+  | .pli s m => emit c15FmtPli c15RtcpPsfb (be32 s ++ be32 m)
+  | .fir s rq => emit c15FmtFir c15RtcpPsfb (firBody s rq)
   | .nack s m lost =>
     if lost.isEmpty then .error (.rtcp "NACK requires at least one packet")
-    else .ok (writeRtcp c15FmtNack c15RtcpRtpfb (be32 s ++ be32 m ++ (packNack lost).flatMap pairBytes))
+    else emit c15FmtNack c15RtcpRtpfb (be32 s ++ be32 m ++ (packNack lost).flatMap pairBytes)
   | .remb s br ss =>
     if ss.length > c15RembMaxSsrcs then .error (.rtcp "too many REMB SSRC entries")
-    else .ok (writeRtcp c15FmtApp c15RtcpPsfb (rembBody s br ss))
-  | .twcc s m b c r f pl => .ok (twccWire (twccBody s m b c r f pl))
+    else emit c15FmtApp c15RtcpPsfb (rembBody s br ss)
+  | .twcc s m b c r f pl =>
+    if r.toNat > 16777215 then .error (.rtcp "TWCC reference time does not fit 24 bits")    -- 0x00FF_FFFF
+    else twccEmit (twccBody s m b c r f pl)
 
 /-- `marshal_rtcp_packets` -/
 def marshalCompound : List Rtcp → Except Err Bytes
